@@ -94,6 +94,7 @@ class StructTrip(Harness):
         return name if '::' in name else self.ty + '::' + name
     def apply(self, it, obj, setter, v):
         """setter = 'set_x' or a chain 'accessor_mut/.../Type::set_x' (each accessor returns a &mut to a nested object)"""
+        setter = setter.split('#')[0]          # 'add_x#2': the same setter listed a second time
         steps = setter.split('/'); cur = Ref(obj)
         for st in steps[:-1]: cur = it.call(self.full(st), [cur])
         last = self.full(steps[-1])
@@ -260,5 +261,15 @@ SPECS['row'] = {'name': 'row', 'prop': 'C05', 'type': 'structs::row::Row', 'stub
 SPECS['defined_name'] = {'name': 'defined_name', 'prop': 'C06', 'type': 'structs::defined_name::DefinedName', 'setter_generics': {'set_name': '::<&str>', 'set_address': '::<&str>'}, 'fields': [
     ('set_name', 'get_name', ('str', [97, 95, 46, 0xE9, 66])), ('set_address', 'get_address', ('strchoice', ['Sheet1!$A$1', "'My Sheet'!$A$1:$B$2", 'Sheet1!$A$1,Sheet1!$C$3', 'Sheet1!$1:$2'])),
     ('set_local_sheet_id', 'get_local_sheet_id', ('u32', 0, 10)), ('set_hidden', 'get_hidden', ('bool',))]}
+SPECS['sheet_format_properties'] = {'name': 'sheet_format_properties', 'prop': 'C05', 'type': 'structs::sheet_format_properties::SheetFormatProperties', 'fields': [
+    ('set_base_column_width', 'get_base_column_width', ('u32', 0, 255)), ('set_custom_height', 'get_custom_height', ('bool',)), ('set_default_column_width', 'get_default_column_width', ('f64', [8.38, 9.0, 12.5])),
+    ('set_default_row_height', 'get_default_row_height', ('f64', [13.5, 15.0, 18.75])), ('set_dy_descent', 'get_dy_descent', ('f64', [0.15, 0.25])),
+    ('set_outline_level_column', 'get_outline_level_column', ('u32', 0, 7)), ('set_outline_level_row', 'get_outline_level_row', ('u32', 0, 7)),
+    ('set_thick_bottom', 'get_thick_bottom', ('bool',)), ('set_thick_top', 'get_thick_top', ('bool',))]}
+SPECS['print_options'] = {'name': 'print_options', 'prop': 'C06', 'type': 'structs::print_options::PrintOptions', 'fields': [
+    ('set_horizontal_centered', 'get_horizontal_centered', ('bool',)), ('set_vertical_centered', 'get_vertical_centered', ('bool',))]}
+_RANGES = ['A1:B2', 'C3:D4', 'B2:C3', 'XFD1048575:XFD1048576', 'A:B', '1:2']
+SPECS['merge_cells'] = {'name': 'merge_cells', 'prop': 'C06', 'type': 'structs::merge_cells::MergeCells', 'setter_generics': {'add_range': '::<&str>'}, 'fields': [
+    ('add_range', 'get_range_collection', ('strchoice', _RANGES)), ('add_range#2', 'get_range_collection', ('strchoice', _RANGES))]}
 def harnesses_for(prop, tier):
     return [StructTrip(tier, sp) for sp in SPECS.values() if sp['prop'] == prop]
